@@ -813,16 +813,10 @@ ElemNumber::getMatchingAncestors(
                 *this,
                 executionContext) != XPath::eMatchScoreNone)
         {
-            // The following if statement gives level="single" different 
-            // behavior from level="multiple", which seems incorrect according 
-            // to the XSLT spec.  For now we are leaving this in to replicate 
-            // the same behavior in XT, but, for all intents and purposes we 
-            // think this is a bug, or there is something about level="single" 
-            // that we still don't understand.
-            if(!stopAtFirstFound)
-            {
-                break;
-            }
+            // Only the ancestors that are descendants of the nearest
+            // node that matches the from pattern are searched, for
+            // level="single" as well as for level="multiple".
+            break;
         }
 
         assert(0 != countMatchPattern);
